@@ -25,6 +25,10 @@ func (s *LookupJoin) Run(ctx ExecutionContext, produce ProduceFn, metaSend MetaS
 	if err := s.source.Run(ctx, func(produceCtx ProduceContext, sourceRecord Record) error {
 		ctx := ctx.WithRecord(sourceRecord)
 
+		// Taking a source record back undoes what it produced, last change first.
+		// Otherwise, if the joined stream itself contains retractions, a row would be retracted before it's there.
+		var undo []Record
+
 		if err := s.joined.Run(ctx, func(produceCtx ProduceContext, joinedRecord Record) error {
 			outputValues := make([]octosql.Value, len(sourceRecord.Values)+len(joinedRecord.Values))
 
@@ -33,13 +37,25 @@ func (s *LookupJoin) Run(ctx ExecutionContext, produce ProduceFn, metaSend MetaS
 
 			retraction := (sourceRecord.Retraction || joinedRecord.Retraction) && !(sourceRecord.Retraction && joinedRecord.Retraction)
 
-			if err := produce(ProduceFromExecutionContext(ctx), NewRecord(outputValues, retraction, sourceRecord.EventTime)); err != nil {
+			outputRecord := NewRecord(outputValues, retraction, sourceRecord.EventTime)
+			if sourceRecord.Retraction {
+				undo = append(undo, outputRecord)
+				return nil
+			}
+
+			if err := produce(ProduceFromExecutionContext(ctx), outputRecord); err != nil {
 				return fmt.Errorf("couldn't produce: %w", err)
 			}
 
 			return nil
 		}, metaSend); err != nil {
 			return fmt.Errorf("couldn't run joined stream: %w", err)
+		}
+
+		for i := len(undo) - 1; i >= 0; i-- {
+			if err := produce(ProduceFromExecutionContext(ctx), undo[i]); err != nil {
+				return fmt.Errorf("couldn't produce: %w", err)
+			}
 		}
 
 		return nil
